@@ -237,6 +237,43 @@ def gen_decls(rng, rich):
     return decls
 
 
+PREFIX_FAMILY = ["px", "px/b", "px/b/c", "px/bc", "px/bc/d", "px/bcd", "px/k", "px/k/f", "px/k/fo", "px/k/fo/s", "px/k/b", "px/k/b/c"]
+# (outer recursive, inner recursive packages, explicitly configured non-recursive packages)
+PREFIX_VARIANTS = [
+    ("px", ["px/b"], []),                    # depth 1: px/bc, px/bc/d, px/bcd, px/k/b must inherit from px
+    ("px", ["px/b"], ["px/bc"]),             # the prefix sibling itself configured, not recursive: px/bc/d still from px
+    ("px", ["px/bc"], []),                   # px/bcd is not below px/bc; px/b is not either
+    ("px", ["px/k/f"], []),                  # depth 2: px/k/fo, px/k/fo/s from px
+    ("px/k", ["px/k/f"], ["px/k/fo"]),       # depth 2 with an inner outer package
+    ("px", ["px/b", "px/b/c"], []),          # chain a, a/b, a/b/c recursive; a/bc, a/bc/d not below a/b
+    ("px", ["px/b", "px/bc"], []),           # both siblings recursive with different settings; px/bcd from px
+    ("px", ["px/k/b"], []),                  # same base name: px/b, px/b/c must inherit from px, not from px/k/b
+    ("px", ["px/b", "px/k"], ["px/k/fo"]),   # px/k/b from px/k (nearest), not from px/b (same base name)
+]
+
+
+def gen_prefix_config(rng, root, words):
+    outer, inners, plain = rng.choice(PREFIX_VARIANTS)
+    pkgs = {}
+    c = empty_cfg(); c["rec"] = True; c["mark"] = "_Outer"
+    if rng.random() < 0.8: c["all"] = True
+    else: c["inc"] = {"t": "ok", "p": {"bos": False, "body": ("lit", "p"), "eos": False}}      # Keep.. and Drop..
+    if rng.random() < 0.25: c["exsub"] = [{"bos": False, "body": ("lit", rng.choice(["/bcd", "/fo/s", "/c", "/k/b"])), "eos": True}]
+    pkgs[path_of(outer)] = {"null": False, "cfg": c, "ifaces": {}}
+    for j, rel in enumerate(inners):
+        c = empty_cfg(); c["rec"] = True; c["mark"] = "_Inner%d" % j
+        c["all"] = False
+        c["inc"] = {"t": "ok", "p": {"bos": True, "body": ("lit", "Keep"), "eos": False}}
+        if rng.random() < 0.2: c["exc"] = {"t": "ok", "p": {"bos": False, "body": ("lit", "C"), "eos": True}}
+        pkgs[path_of(rel)] = {"null": False, "cfg": c, "ifaces": {}}
+    for j, rel in enumerate(plain):
+        c = empty_cfg(); c["rec"] = rng.choice([False, None]); c["mark"] = "_Plain%d" % j
+        c["inc"] = {"t": "ok", "p": {"bos": True, "body": ("lit", "Drop"), "eos": False}}
+        pkgs[path_of(rel)] = {"null": False, "cfg": c, "ifaces": {}}
+    root["rec"] = None if rng.random() < 0.8 else False
+    return pkgs
+
+
 def gen_twin_decls(rng):
     names = rng.sample(["Client", "Server", "Store", "Codec", "handler"], rng.randint(2, 4))
     ds = [{"name": n, "form": "iface", "file": "a.go"} for n in names]
@@ -278,6 +315,13 @@ def gen_tree(rng):
         if rng.random() < 0.4:
             nodes.append({"rel": tp + "/_hid", "class": "ignored", "decls": [],
                           "extra": {"h.go": "package hid\n\ntype H interface{ M() }\n"}})
+    # string-vs-path confusions: directories whose import path is a proper STRING prefix of a sibling
+    # (px/b, px/bc, px/bcd; px/k/f, px/k/fo), the same base name at two depths (px/b, px/k/b), three-level chains
+    for rel in PREFIX_FAMILY:
+        tag = re.sub(r"[^a-z]", "", rel[2:]).upper() or "TOP"
+        nodes.append({"rel": rel, "class": "go", "decls": [
+            {"name": "Keep" + tag, "form": "iface", "file": "a.go"}, {"name": "Drop" + tag, "form": "iface", "file": "a.go"}]
+            + ([{"name": "Opt" + tag, "form": "struct", "file": "b.go"}] if rng.random() < 0.3 else [])})
     # cross-package state: several packages with the SAME package name (different import paths; one in a
     # directory with another name) that declare interfaces, structs and files with the SAME names, plus
     # the same interface names in a package with a different name
@@ -371,6 +415,10 @@ def gen_config(rng, nodes, shape=None):
     elif shape in ("nested", "explicit_child"): chosen = chain[:1] + rng.sample(chain[1:], min(1, len(chain) - 1))
     elif shape == "triple": chosen = chain[:1] + rng.sample(chain[1:], min(2, len(chain) - 1))
     elif shape == "rootrec": chosen = rng.sample([n["rel"] for n in gos], min(len(gos), 2)); root["rec"] = True
+    elif shape == "prefix_nested":
+        pkgs = gen_prefix_config(rng, root, words)
+        order = list(pkgs); rng.shuffle(order)
+        return {"root": root, "tags": tags, "pkgs": pkgs, "order": order, "shape": shape}
     elif shape == "twins_explicit":
         tw = [n["rel"] for n in gos if n["rel"].startswith("tw/")]
         chosen = rng.sample(tw, rng.randint(2, len(tw))) + ([rng.choice(chain)] if chain and rng.random() < 0.4 else [])
@@ -750,11 +798,12 @@ def gen_cases(ctx):
     if not ctx.thorough():
         tab = rng.sample(tab, 96)
     cases += tab
-    ntrees = 160 if ctx.thorough() else 14
-    shapes = ["flat", "single", "nested", "twins_explicit", "twins_recursive", "triple", "explicit_child", "rootrec", "nested", "random"]
+    ntrees = 140 if ctx.thorough() else 13
+    shapes = ["flat", "single", "nested", "prefix_nested", "twins_explicit", "twins_recursive", "triple", "explicit_child", "rootrec",
+              "prefix_nested", "nested", "random"]
     for t in range(ntrees):
         nodes = gen_tree(rng)
-        for k in range(10 if ctx.thorough() else 8):
+        for k in range(12 if ctx.thorough() else 9):
             cfg = gen_config(rng, nodes, shape=shapes[k % len(shapes)])
             cases.append({"nodes": nodes, "config": cfg, "label": "tree%d:%s" % (t, cfg["shape"])})
     return cases
